@@ -114,6 +114,13 @@ pub fn replicate_into(scene: &mut DynamicScene, world: &World) {
                         .get_mut(&entity.id())
                         .expect("all entities should be populated ahead of time");
 
+                    // Replace a copy that is already in the scene instead of duplicating it.
+                    components.retain(|existing| {
+                        existing
+                            .get_represented_type_info()
+                            .is_none_or(|info| info.type_id() != type_id)
+                    });
+
                     debug!("adding `{type_name}` to `{}`", entity.id());
                     components.push(component.into_partial_reflect());
                 }
